@@ -29,8 +29,8 @@ ASSUMPTIONS = [
     'smoothing window is a percentage of the layer count (0-100)',
     'for Guillot parameters outside the documented bounds but not in a listed rejected class nothing beyond agreement with the closed form is asserted',
 ]
-RULE = RULE + ' ' + 'Also: Guillot faults arriving through the fitting parameter after a first valid use, Guillot profiles re-initialised on another pressure grid and planet, NPoint nodes as numpy arrays, a slope limit just above the steepest segment; cases stratified by kind.'
-REQUIRED = {'guillot:refused-point-then-repaired': 0.1, 'npoint:nodes-as-arrays': 0.04, 'slope-just-below-limit': 0.004, 'guillot-fault-set-after-first-use': 0.02, 'negative-node': 0.006, 'kind:npoint': 0.08, 'kind:guillot': 0.06, 'kind:array': 0.04, 'kind:file': 0.03, 'kind:rodgers': 0.04,
+RULE = RULE + ' ' + 'Also: Guillot faults arriving through the fitting parameter after a first valid use, Guillot profiles re-initialised on another pressure grid and planet, NPoint nodes as numpy arrays, a slope limit just above the steepest segment; cases stratified by kind. Round 9: the correlation length of the layer-correlated profile is moved through its fitting parameter after the first read and the profile read again.'
+REQUIRED = {'rodgers:length-changed': 0.06, 'guillot:refused-point-then-repaired': 0.1, 'npoint:nodes-as-arrays': 0.04, 'slope-just-below-limit': 0.004, 'guillot-fault-set-after-first-use': 0.02, 'negative-node': 0.006, 'kind:npoint': 0.08, 'kind:guillot': 0.06, 'kind:array': 0.04, 'kind:file': 0.03, 'kind:rodgers': 0.04,
             'kind:isothermal': 0.02, 'rejected-class': 0.04}
 # coverage-guided extra (thorough tier): pure-Python taurex modules on this property's path, instrumented by atheris
 FUZZ = {'include': ['taurex.data.profiles.temperature'], 'runs': 40000, 'workers': 4}
@@ -436,5 +436,22 @@ def check(case):
         out.applies('constant-when-equal')
         if not close(T, lo * np.ones(nl), rtol=1e-12):
             out.fail('constant-when-equal@' + kind, 'range [%r,%r] for constant controls %r' % (float(T.min()), float(T.max()), lo))
+    if kind == 'rodgers':
+        # ---- history: the correlation length moved through its fitting parameter on the same object (what a retrieval fitting
+        # it does), profile read again: still inside the range of the layer temperatures, still the constant for equal ones
+        try:
+            h2 = c['corr'] * 4.3 if c['corr'] < 5.0 else c['corr'] / 4.3
+            tp.fitting_parameters()['correlation_length'][3](h2)
+            out.cls('rodgers:length-changed')
+            with np.errstate(all='ignore'):
+                T2 = cut(out, 'profile@rodgers,length-changed', lambda: np.asarray(tp.profile, dtype=float))
+            out.applies('within-controls')
+            if T2.shape != (nl,) or not np.all(np.isfinite(T2)) or np.any(T2 < lo * (1 - 1e-9)) or np.any(T2 > hi * (1 + 1e-9)):
+                out.fail('within-controls@rodgers,length-changed', 'correlation length %r -> %r: profile range [%r, %r] leaves the control range [%r, %r]'
+                         % (c['corr'], h2, float(np.nanmin(T2)), float(np.nanmax(T2)), lo, hi))
+            elif lo == hi and not close(T2, lo * np.ones(nl), rtol=1e-12):
+                out.fail('constant-when-equal@rodgers,length-changed', 'range [%r,%r] for constant layers %r' % (float(T2.min()), float(T2.max()), lo))
+        except CutError:
+            pass
     out.nontrivial = bool(nontriv)
     return out
